@@ -53,6 +53,9 @@ CHECKS = {
  'C15': ('libx', 'bounded-exhaustive enumeration of record spellings (field orders, optional field subsets, value classes in kernel and user-space spelling, malformed predecessor records) on the real logs.New, each returned map compared key by key with the construction map',
          '16 thousand record spellings are pushed through the real reader; the oracle is the construction itself (the harness knows every key and value it wrote).',
          'kernel spelling rules (audit_log_untrustedstring) as stated in the evidence', 'DESIGN.md §4 C15'),
+ 'C16': ('libx+dfax', 'exhaustive enumeration of (name x operation/mask x uid relation x qualifier) records and one-aspect pairs through the real log-to-rules pipeline; membership of the recorded name decided by walking it on the DFA the reference parser compiles from the emitted rule over the shipped tunables',
+         'Every record of the alphabet is turned into rules by the real code; for file records the recorded path is run through the automaton AppArmor itself would use, so no glob semantics are re-implemented; other classes are checked attribute by attribute with an independent tokenizer.',
+         'apparmor_parser 3.0.8; tunables of a real build tree; permission bit layout read off compiled one-letter rules', 'DESIGN.md §4 C16'),
 }
 PENDING = {}
 def main():
